@@ -153,7 +153,7 @@ def main():
     if '--kinds' in args:
         kinds = args[args.index('--kinds') + 1].split(','); del args[args.index('--kinds'):args.index('--kinds') + 2]
     table = vocab.load()
-    pids = args or sorted(table)
+    pids = args or sorted(k for k in table if not k.startswith('_'))
     prog = Program()
     todo = []
     for pid in pids:
